@@ -10,6 +10,7 @@ import (
 	"time"
 
 	"github.com/douban/gobeansdb/cmem"
+	"github.com/douban/gobeansdb/quicklz"
 	simrt "github.com/douban/gobeansdb/zzsimrt"
 )
 
@@ -785,11 +786,83 @@ func (x *seqExec) verifyAll(phase string, afterRestart bool) {
 	x.curOp = save
 }
 
+// plantGoCompressed (C10, Go -> C direction): between two generations a record whose value was
+// compressed by the repository's *Go* QuickLZ is appended (independent encoder) to the newest data
+// file of the key's bucket and the bucket's index files are removed; the store must then serve
+// the original bytes with the client's flags, decompressing with the C implementation.
+func (x *seqExec) plantGoCompressed(seed uint32) {
+	r := NewRng(uint64(seed) ^ 0x60)
+	cfg := &x.plan.Cfg
+	var cands []int
+	for k, km := range x.m.Keys {
+		if !km.Unserved && !km.Collide && len(km.Alts) == 1 {
+			cands = append(cands, k)
+		}
+	}
+	if len(cands) == 0 {
+		return
+	}
+	k := cands[r.Intn(len(cands))]
+	km := x.m.Keys[k]
+	n := r.Pick(300, 1000, 5000, 10240, 10241, 30000)
+	if n > int(cfg.BodyMax) {
+		n = int(cfg.BodyMax)
+	}
+	if n < 300 {
+		return
+	}
+	val := make([]byte, n)
+	phrase := fmt.Sprintf("planted-%d-", seed)
+	for i := range val {
+		val[i] = phrase[i%len(phrase)]
+	}
+	comp := quicklz.Compress(val, 3) // level 3: the level the C implementation is compiled for (QLZ_COMPRESSION_LEVEL)
+	if len(comp) >= len(val) {
+		return
+	}
+	flag := uint32(r.Pick(0, 1, 0x20, 12345))
+	ver := abs32(km.Alts[0].Ver) + 1
+	b := bucketOf(cfg, km.Key)
+	dir := x.sim.bucketDir(b)
+	names := []string{}
+	for name := range snapshotDataFiles(dir) {
+		names = append(names, name)
+	}
+	if len(names) == 0 {
+		return
+	}
+	sort.Strings(names)
+	last := filepath.Join(dir, names[len(names)-1])
+	ts := uint32(x.sim.Epoch + x.sim.elapsed/1e9)
+	rec := refEncode(ts, flag|flagServerCompress, ver, km.Key, comp)
+	f, err := os.OpenFile(last, os.O_WRONLY|os.O_APPEND, 0644)
+	if err != nil {
+		return
+	}
+	f.Write(rec)
+	f.Close()
+	for _, name := range sortedKeys(listFiles(dir)) {
+		switch fileClass(name) {
+		case "tree", "hint", "merged":
+			if filepath.Dir(filepath.Join(dir, name)) == dir {
+				os.Remove(filepath.Join(dir, name))
+			}
+		}
+	}
+	id := 900000 + x.gen
+	km.Alts = []Alt{{Ver: ver, Val: val, Flag: flag, WriteID: id, DataVer: ver, TSLo: int64(ts) - 1, TSHi: int64(ts) + 1}}
+	km.Writes = append(km.Writes, WriteRec{ID: id, Ver: ver, Val: val, Flag: flag})
+	x.out.probe("planted-go-compressed-record")
+}
+
 // applyRestart deletes the drawn subset of derived index files between two generations.
 func (x *seqExec) applyRestart(op *Op) {
 	x.gen++
 	if op == nil {
 		return
+	}
+	if x.plan.Prop == "C10" && op.DelSeed%2 == 1 && !op.Kill {
+		defer x.plantGoCompressed(op.DelSeed)
 	}
 	r := NewRng(uint64(op.DelSeed))
 	want := map[string]bool{}
@@ -1091,6 +1164,30 @@ func (x *seqExec) checkDataFiles() {
 			if len(sc.Broken) > 0 || sc.PartialEnd {
 				x.fail("R-layout", fmt.Sprintf("data file %s/%s: unreadable 256-blocks at %v partialEnd=%v", dir, name, sc.Broken, sc.PartialEnd))
 				return
+			}
+			for _, rec := range sc.Recs {
+				if rec.Flag&flagServerCompress == 0 {
+					continue
+				}
+				// in-situ cross check, C -> Go: what the C QuickLZ stored must decompress with
+				// the Go implementation to a value really written for this key
+				x.out.probe("value-compressed")
+				v, ok := storedValue(rec)
+				okv := false
+				for _, km := range x.m.Keys {
+					if string(km.Key) != string(rec.Key) {
+						continue
+					}
+					for _, w := range km.Writes {
+						if ok && !w.Tomb && string(w.Val) == string(v) {
+							okv = true
+						}
+					}
+				}
+				if !okv {
+					x.failSub("R-layout", "cross-decompress", fmt.Sprintf("data file %s/%s offset %d: the server-compressed value of key %q does not decompress (Go QuickLZ, ok=%v) to a value written for that key", dir, name, rec.Off, trunc(string(rec.Key), 30), ok))
+					return
+				}
 			}
 		}
 	}
